@@ -75,7 +75,7 @@ def accepts (cfg : Cfg) (evs : List Ev) : Bool :=
 
 def exCfg : Cfg := { units := [.ok], srcOk := true, endFused := true, maxWorkers := 1, initialWorkers := 1 }
 
-/-- `call,ct:m,ce:0,cs:r,cy:e,w0:b,w0:s:0,w0:w,cq:1,cp:0,ca:0,cw:0:1:0,cx:e,ct:m,w0:k,w0:p:0,w0:a,w0:o:0,
+/-- `call,ct:m,ce:0,cs:r,cy:e,w0:b,w0:s:0,w0:w,cq:1,cp:0,ca:0,cw:0:1,cx:e,ct:m,w0:k,w0:p:0,w0:a,w0:o:0,
     w0:t:0:1,w0:d,ce:0,cs:dr,w0:s:0,cr:r:0,rt:d:0,call,ct:m,w0:w,ce:0,cs:df,ct:m,ce:0,cs:f,rt:n,drop,w0:k,w0:c,w0:x` -/
 def exLog : List Ev :=
   [.call, .c (.top none), .c (.err false), .c (.st .reading), .c (.tryRecv .empty), .w 0 .start, .w 0 (.sd false),
